@@ -37,6 +37,7 @@ func fname(f *ssa.Function) string {
 }
 
 func tname(t types.Type) string {
+	t = types.Unalias(t) // a name given with "type X = …" is the type it stands for
 	s := types.TypeString(t, func(p *types.Package) string {
 		if strings.HasPrefix(p.Path(), modPath) {
 			return "poly" + strings.TrimPrefix(p.Path(), modPath)
